@@ -20,6 +20,8 @@ func extra(cmd string, args []string) {
 		cmdGemHist(args)
 	case "probes":
 		cmdProbes(args)
+	case "manip":
+		cmdManip(args)
 	default:
 		fmt.Fprintln(os.Stderr, "unknown command", cmd)
 		os.Exit(2)
